@@ -33,7 +33,7 @@ BYTES_TO_DICT = Contract(
 
 BYTES_TO_HEXSTR = Contract(
     "wormhole/util.py:bytes_to_hexstr", props=["C01"], params={"b": "bytes"}, returns="str",
-    ensures=[("hex", "result == hexstr(b)"), ("round-trip", "is_hex(ascii(result)) and unhex(ascii(result)) == b"),
+    ensures=[("hex", "result == hex_of(b)"), ("round-trip", "is_hex(ascii(result)) and unhex(ascii(result)) == b"),
              ("ascii", "is_ascii(result)")])
 
 HEXSTR_TO_BYTES = Contract(
